@@ -24,6 +24,9 @@ def run(ctx):
         "bodies contain no fractional / exponent numbers (canonical-JSON number handling is property C01)",
         "key validity instants are placed >= 1 h away from the real clock (valid: now+1h..6d, beyond 7 days: now+8d..365d, "
         "lapsed: now-1h..30d, expired old key: now-1h..30d); `now` given to VerifyHTTPRequest is the real clock",
+        "verdict left open (either answer; an accepted request must still be the signed one) where the property sentence is "
+        "silent: scheme spelled X-MATRIX / x-matrix, sig re-encoded in padded or URL-safe base64",
+        "a receiver whose local-name function rejects every name is not given requests without destination parameter",
         "header grammar trace: values without comma, quote or backslash; lower-case parameter names; commas never dropped "
         "(outside these the grammars in circulation disagree and the property sentence does not decide)",
     ]
@@ -31,11 +34,13 @@ def run(ctx):
     r = ctx.tlc("FedRequest_gen", cfg, timeout=1500)
     ctx.exhaustive = True
     ctx.notes["rule"] = (
-        "every Receive outcome of FedRequest.tla with (deviations from the base request in method / URI class / origin shape / "
-        "destination shape / emit style / key state) + (tamperings, at most 2, one per wire component) <= Budget "
-        "(quick 2, thorough 3), fully crossed with body class x destination ownership x receiver configuration: all single "
-        "tamperings and all pairs; distinct = distinct (tamper set, body, destination ownership, receiver configuration, key "
-        "state, origin shape, destination shape, style, verdict) classes; plus token-kind classes of the header trace")
+        "every Receive outcome of FedRequest.tla with (deviations from the base request: method, URI class, origin shape, "
+        "destination shape, name spelling, rarer body classes, entry point, number of signing keys, emit style, key state, "
+        "keys known to the receiver, rarer receiver configurations) + (tamperings, at most 2, one per wire component) <= Budget "
+        "(quick 2, thorough 3), fully crossed with body class {none, object, non-UTF-8} x destination ownership {primary, "
+        "secondary, foreign} x receiver configuration {single, multi}: all single tamperings and all pairs; distinct = distinct "
+        "(tamper set, body, ownership, configuration, key state, keys, entry, shapes, spellings, style, verdict) classes; "
+        "plus token-kind classes of the header trace")
     ctx.notes["constants"] = cfg
     ctx.replay_and_compare("c13", r.records, pkg=PKG)
 
